@@ -232,6 +232,29 @@ class bptk():
         if(not "lock" in state.keys()):
             state["lock"] = False
         self.session_state = state
+        self._replay_session()
+
+    def _replay_session(self):
+        """Bring the scenario models of a restored session to the point where the session was saved.
+
+        The session state only records what was done (settings given when the session began, settings per step, results per step). The models themselves start from scratch after a restore, so the recorded steps are run again with their recorded settings; nothing is logged and the session clock is not moved."""
+        state = self.session_state
+        if not state or not state.get("results_log"):
+            return
+        settings_by_step = {float(step): settings for step, settings in (state.get("settings_log") or {}).items()}
+        steps = sorted(float(step) for step in state["results_log"].keys())
+        for _, manager in self.scenario_manager_factory.scenario_managers.items():
+            if manager.name in state["scenario_managers"] and manager.type == "sd" and len(state["equations"]) > 0:
+                scenarios = [scenario for scenario in manager.scenarios.keys() if scenario in state["scenarios"]]
+                for scenario in scenarios:
+                    session_settings = (state.get("settings") or {}).get(manager.name, {}).get(scenario)
+                    if session_settings:
+                        manager.scenarios[scenario].configure_settings(session_settings)
+                    self.reset_scenario_cache(scenario_manager=manager.name, scenario=scenario)
+                runner = SdRunner(self.scenario_manager_factory)
+                for step in steps:
+                    runner.run_scenario_step(step=step, scenarios=scenarios, equations=state["equations"],
+                                             scenario_manager=manager.name, settings=settings_by_step.get(step))
 
     def lock(self):
         if self.session_state is not None:
